@@ -7,6 +7,7 @@ namespace QF.Props.C05
 -- them makes a `gen_*_canon` theorem of this property's modules fail, renaming their locals or reformatting them changes nothing:
 -- `grouper.Distinct`, `groupIndex`, `table.insertEntry`, `table.grow`: regenerated as `Gen.grouperFns` (grpast.go), `C04GrouperCanon.gen_grouper_canon` +
 -- `C04GrouperGen.gen_grouper_semantics`, `C05DistinctGen.gen_distinct_spec`.
-theorem tie : Tie.sameAll ["qframe.QFrame.Distinct"] = true := by decide
+-- QFrame.Distinct is regenerated: its guard in `Gen.guardAst2` (C10Guards.gen_distinct_semantics), the comparables it hands to the grouper in `Gen.distinctCmpsAst` (C04GlueGen.gen_distinct_cmps_semantics, gen_distinct_rows), the new index in `Gen.projectAst` (C08ProjectGen); nothing of C05 is compared as text any more.
+theorem tie : Tie.sameAll [] = true := by decide
 
 end QF.Props.C05
